@@ -438,6 +438,11 @@ pub fn cmd_foreach(interp: &mut Interp, _: ContextID, argv: &[Value]) -> MoltRes
     let list = &*argv[2].as_list()?;
     let body = &argv[3];
 
+    // With no loop variables nothing would ever be consumed from the list.
+    if var_list.is_empty() {
+        return molt_err!("foreach varlist is empty");
+    }
+
     let mut i = 0;
 
     while i < list.len() {
